@@ -32,7 +32,7 @@ class C16(Prop):
     rule = ('one case = one generated world; its fault-free run has K primary solves; every solve index k is hit with a '
             'time-limit fault (always fires; convergence_error=False, no backup) and with seeded samples (quick: 2 per k, '
             'thorough: the full product) of kind{timelimit,maxiter,singular,linesearch} x convergence_error{T,F} x '
-            'backup{none,rescues,fails}; plus a trials-exceeded run when the world re-solves. non-trivial = at least one '
+            'backup{none,rescues,fails}; plus a trials-exceeded run when the world re-solves, plus two paused-and-continued runs (one paused off the report grid when the report step is a multiple of the hydraulic step) whose parts must each be well-formed. non-trivial = at least one '
             'fault fired at k>0 in a world with a partial step or a re-solve; distinct = canonical event-log digest of the '
             'fault-free run')
     assumptions = ['fault-free non-convergence of a generated world is itself checked for well-formedness, not discarded',
@@ -141,6 +141,28 @@ class C16(Prop):
                 fired_late = True
             if viol and 'faultruns' not in scn and len(viol) >= 3:
                 break
+        # every run_sim call must return well-formed tables - also the calls that continue a paused simulation
+        o = scn['options']
+        grid = [k * o['hyd_step'] for k in range(1, o['duration'] // o['hyd_step'] + 1) if k * o['hyd_step'] < o['duration']]
+        if grid and 'faultruns' not in scn:
+            r2 = Rng(derive('c16pause', (scn.get('fault_enum') or {}).get('salt', 0)))
+            rs_ = o.get('report_step')
+            off = [t for t in grid if isinstance(rs_, int) and t % rs_ != 0]
+            picks = ([r2.pick(off)] if off else []) + [r2.pick(grid)]
+            for tp in picks[:2]:
+                outp = runsim.run_world(scn, pauses=[tp], persist=r2.pick(['none', 'pickle']))
+                nruns += 1
+                bump(c, 'fired.pause')
+                if outp.exc is not None:
+                    if isinstance(outp.exc, taps.WsimStepCap):
+                        viol.append(V('terminates', 'stepcap.pause', str(outp.exc)))
+                    continue
+                for i_, part in enumerate(outp.parts):
+                    for x in oracles.tables_wellformed(part, scn):
+                        x['oracle'] = 'continued.' + x['oracle']
+                        x['detail'] = 'part %d of a run paused at %d: %s' % (i_, tp, x['detail'])
+                        x['pause'] = tp
+                        viol.append(x)
         if resolves:
             bump(c, 'world.resolve')
         if partial:
